@@ -19,6 +19,7 @@ Driver of C14.  Case line (harness/c14):
   tokens       f:<i>:<b|r|c>  fs:<i>  un  uf  dh:<status|->:<0|1>  dd:<0|1>  dt   (indices are chain-local)
   own=<h>/<d>/<t>  (implementation only, evaluated by the predicate) the answer each downstream part belongs to:
                f<i> scripted receiver filter i, a0 the upstream response, l a reply MOSN generated itself (or an untagged one), - absent
+  tm=<0|1|->   (implementation only) the return value of the asynchronous TerminateStream call of the case (`-`: none made)
 -/
 namespace MosnVerif.Drive.C14
 open MosnVerif.Drive MosnVerif.Gen.FilterPhase MosnVerif.Model.FilterChain MosnVerif.Model.FilterMachine
@@ -183,6 +184,24 @@ def ownClause (envToks : List String) (obs : List Obs) (own : Option String) : B
        | none => true)
     | _ => false
 
+/-- clause on the asynchronous TerminateStream of the case (declarative): a call on the kept handler of an earlier request
+(`st…`) returns false; an accepted call (`term` / `termr`: also with an upstream response landing inside it) is answered with
+exactly the header-only local reply `code` — unless the request is one-way or a filter returned the termination status
+(a terminated stream gets no reply by definition) -/
+def termClause (envToks implToks : List String) (obs : List Obs) (own tm : Option String) : Bool :=
+  let terminated := obs.any (fun o => match o with
+    | .fs _ st => st == .termination
+    | .f _ _ v => v.status == .termination
+    | _ => false)
+  match kv "up" envToks, tm with
+  | some up, some r =>
+    if up.startsWith "st" then r == "0"
+    else if up.startsWith "term" && r == "1" && !terminated && kv "oneway" envToks == some "0" then
+      let code := if up.startsWith "termr" then (up.drop 5).toString else (up.drop 4).toString
+      implToks.filter (fun t => t.startsWith "d" && !t.startsWith "done=") == [s!"dh:{code}:1"] && own == some "l/-/-"
+    else true
+  | _, _ => false
+
 def chain (recv send : String) (envToks impl : List String) : String :=
   match parseRecv recv, parseSend send, parseEnv envToks with
   | some r, some sd, some env =>
@@ -194,11 +213,12 @@ def chain (recv send : String) (envToks impl : List String) : String :=
     let modelToks := model.map showRaw ++ (if fin.retried then ["retried"] else []) ++ [if fin.cleaned then "done=1" else "done=0"]
     let implAll := if impl == ["-"] then [] else impl
     let own := (implAll.find? (fun t => t.startsWith "own=")).map (fun t => (t.drop 4).toString)
-    let implToks := implAll.filter (fun t => !t.startsWith "own=")
+    let tm := (implAll.find? (fun t => t.startsWith "tm=")).map (fun t => (t.drop 3).toString)
+    let implToks := implAll.filter (fun t => !t.startsWith "own=" && !t.startsWith "tm=")
     let agree := modelToks == implToks
     -- the property predicate on the implementation's tokens (independent of the model run)
     let sp := match (implToks.filter (fun t => !t.startsWith "done=")).mapM parseRaw with
-      | some raws => spec c (annot c raws) && ownClause envToks (annot c raws) own
+      | some raws => spec c (annot c raws) && ownClause envToks (annot c raws) own && termClause envToks implToks (annot c raws) own tm
       | none => false
     s!"{if agree then "A" else "D"} {if sp then "S" else "V"} {joinWith "," modelToks}"
   | _, _, _ => "E E bad-case"
